@@ -160,6 +160,16 @@ check("C05", "exploration",
       "rules used is asserted on every run.",
       "exhaustive lattice sweep against entrywise inequalities and exact identities")
 
+check("C08", "exploration",
+      "Exhaustive sweep mesh x every potential and far-field operator x accepted spaces (whole grid, segment, swapped normals) x "
+      "wavenumber lattice (real, complex, negative real part) x orders x every unit coefficient vector (linearity => all real and "
+      "complex densities) x fixed off-surface points / directions: values against closed-form kernel sums over the library's own "
+      "quadrature points (rounding); PDE residuals by central differences; far field against r exp(-ikr) potential(r x) at two radii "
+      "(error must fall like 1/r) and translation covariance.",
+      "DESIGN.md 4/C08",
+      "Trusted: textbook Green's functions; quadrature rule (C12) and basis evaluation (C09). Points outside the lattice not covered.",
+      "exhaustive sweep against closed-form kernel sums, finite-difference PDE residuals and asymptotic limits")
+
 ALL = ["C%02d" % i for i in range(1, 21)]
 
 
